@@ -674,7 +674,7 @@ def gen_scalar_value(rng, k: str, cfg: Cfg):
     if k in ("ppath", "purepath", "path"):
         cls = {"ppath": "PurePosixPath", "purepath": "PurePath", "path": "Path"}[k]
         return {"$path": [cls, rng.choice(["a/b", "/abs/x", ".", "a", "rel/../x", "/", "dir/file.txt", "x y/z", "1", "null", "a.b",
-                                            "donn\u00e9es/caf\u00e9.txt", "/srv/\u65e5\u672c/x", "na\u00efve"])]}
+                                            "donn\u00e9es/caf\u00e9.txt", "/srv/\u65e5\u672c/x", "na\u00efve", "~", "~/x", "~/.config/app.toml"])]}
     if k == "pat":
         return {"$re": rng.choice(["a+", "^x$", "[0-9]{2}", "", "\\d+", "(a|b)*", ".", "1", "null"])}
     if k == "date":
